@@ -2,7 +2,7 @@
    input, what the implementation did (error | field dump + re-encoding); [c18_ok] recomputes
    the same observation from the model and compares (evaluated with vm_compute). *)
 From Coq Require Uint63.
-From DtlsV Require Import Lib.Bytes Gen.Generated Codec.C18Comb Codec.C18Rec Codec.C18Hs Codec.C18Rec13.
+From DtlsV Require Import Lib.Bytes Gen.Generated Codec.C18Comb Codec.C18Rec Codec.C18Hs Codec.C18Rec13 Codec.C18Ext Codec.C18Kx.
 Open Scope N_scope.
 
 (* Byte strings are written by the driver as (length, 7-byte big-endian chunks as primitive
@@ -53,6 +53,7 @@ Definition dump_hdr (h : hdr) : list N :=
   [h_ct h; h_maj h; h_min h; h_epoch h; h_seq h] ++ dump_bytes (h_cid h) ++ [h_len h].
 Definition dump_hshdr (h : hshdr) : list N := [hh_type h; hh_len h; hh_mseq h; hh_foff h; hh_flen h].
 Definition dump_pair (x : N * N) : list N := [fst x; snd x].
+Definition dump_one (x : N) : list N := [x].
 
 Definition dump_msg (m : hsmsg) : list N :=
   match m with
@@ -153,6 +154,37 @@ Definition run (id : N) (ctx : list N) (b : bytes) : option obs :=
   | 21 => Some (run_crec13 (N.to_nat (ctxn ctx 0)) b)
   | 22 => if (hd0 b =? 22) && negb (hs_in_model (skipn 13 b)) then None else Some (run_prec13 b)
   | 23 => Some (run_unpack13 (N.to_nat (ctxn ctx 0)) (ctxn ctx 1 =? 1) (ctxn ctx 2 =? 1) b)
+  | 103 => Some (run_w (w_ske (ctxn ctx 0))
+                   (fun x => let '(hint, (ct, (cv, (pk, (h, (s, sg)))))) := x in
+                             dump_obytes hint ++ [ct; cv] ++ dump_bytes pk ++ [h; s] ++ dump_bytes sg) b)
+  | 104 => Some (run_w w_certreq
+                   (fun x => let '(tys, (sigs, cas)) := x in
+                             dump_list dump_one tys ++ dump_list dump_pair sigs ++ dump_list dump_bytes cas) b)
+  | 119 => Some (run_w w_ext_list (dump_list (fun x => fst x :: dump_bytes (snd x))) b)
+  | 120 => Some (run_w w_connection_id dump_bytes b)
+  | 122 | 131 | 132 | 137 | 143 => Some (run_w w_empty (fun _ => []) b)
+  | 123 => Some (run_w w_alpn_offer (dump_list dump_bytes) b)
+  | 124 => Some (run_w w_alpn_selection dump_bytes b)
+  | 125 => Some (run_w w_srtp_offer (fun x => dump_list dump_one (fst x) ++ dump_bytes (snd x)) b)
+  | 126 => Some (run_w w_srtp_selection (fun x => fst x :: dump_bytes (snd x)) b)
+  | 127 | 128 | 129 => Some (run_w w_u16_list (dump_list dump_one) b)
+  | 130 => Some (run_w w_raw_payload dump_bytes b)
+  | 133 => Some (run_w w_renegotiation_info dump_one b)
+  | 134 => Some (run_w w_point_formats (dump_list dump_one) b)
+  | 135 => Some (run_w w_cert_authorities (dump_list dump_bytes) b)
+  | 136 => Some (run_w w_cookie dump_bytes b)
+  | 138 => Some (run_w w_max_early_data dump_one b)
+  | 139 => Some (run_w w_client_key_share (dump_list (fun x => fst x :: dump_bytes (snd x))) b)
+  | 140 => Some (run_w w_server_key_share (fun x => fst x :: dump_bytes (snd x)) b)
+  | 141 => Some (run_w w_retry_key_share dump_one b)
+  | 142 => Some (run_w w_oid_filters (dump_list (fun x => dump_bytes (fst x) ++ dump_bytes (snd x))) b)
+  | 144 => Some (run_w w_offered_psks
+                   (fun x => dump_list (fun i => dump_bytes (fst i) ++ [snd i]) (fst x) ++
+                             dump_list dump_bytes (snd x)) b)
+  | 145 => Some (run_w w_selected_psk dump_one b)
+  | 146 => Some (run_w w_psk_modes (dump_list dump_one) b)
+  | 147 => Some (run_w w_offered_versions (dump_list dump_pair) b)
+  | 148 => Some (run_w w_selected_version dump_pair b)
   | _ => None
   end.
 
